@@ -65,13 +65,20 @@ def census():
 
 # ----------------------------------------------------------------------------- values
 
-I64_EDGE = [0, 1, -1, 7, -42, I64MIN, I64MAX, I64MIN + 1, I32MAX + 1, I32MIN - 1, 10 ** 18, -10 ** 18, 999, 1000, -1000]
-I32_EDGE = [0, 1, -1, I32MIN, I32MAX, 32768, -32769, 65536, 10 ** 9, -10 ** 9]
-U64_EDGE = [0, 1, 9, 10, 99, 100, U64, U64 - 1, 2 ** 63, 2 ** 63 - 1, 2 ** 32, U32, 10 ** 19, 10 ** 19 - 1, 12345678901234567890]
+I64_EDGE = [0, 1, -1, 7, -42, I64MIN, I64MAX, I64MIN + 1, I32MAX + 1, I32MIN - 1, 10 ** 18, -10 ** 18, 999, 1000, -1000,
+            2 ** 53 + 1, -(2 ** 53 + 1), 2 ** 62 + 1, -(2 ** 62) - 1, 2 ** 24 + 1, 128, -129, 32767, -32768, 2 ** 32]
+I32_EDGE = [0, 1, -1, I32MIN, I32MAX, 32768, -32769, 65536, 10 ** 9, -10 ** 9, 2 ** 24 + 1, -(2 ** 24) - 1, 127, -128, 32767]
+U64_EDGE = [0, 1, 9, 10, 99, 100, U64, U64 - 1, 2 ** 63, 2 ** 63 - 1, 2 ** 32, U32, 10 ** 19, 10 ** 19 - 1, 12345678901234567890,
+            2 ** 53 + 1, 2 ** 53 - 1, 2 ** 63 + 1025, 2 ** 24 + 1, 2 ** 31, 2 ** 16, 255, 256, 1727740800123456789]
 U32_EDGE = [0, 1, U32, U32 - 1, 65535, 65536, 10 ** 9, 2 ** 31]
 F64_EDGE = [0.0, -0.0, 1.0, -1.0, 0.5, 0.1, 0.2, 0.1 + 0.2, 1e21, 1e22, 1e300, 1.7976931348623157e308, 5e-324,
             2.2250738585072014e-308, 2.225073858507201e-308, 1e-7, 1e-5, 123456789.125, 9007199254740993.0,
-            float("inf"), float("-inf"), float("nan"), 1.5, 2.5, 0.3, 1 / 3, 100.0, 1e15, 1e16, 1e17, 4.35, 0.000001]
+            float("inf"), float("-inf"), float("nan"), 1.5, 2.5, 0.3, 1 / 3, 100.0, 1e15, 1e16, 1e17, 4.35, 0.000001,
+            # around the integer types' limits (a value routed through an integer cast saturates or rounds there)
+            2.0 ** 63, -2.0 ** 63, 9223372036854777856.0, -9223372036854777856.0, 9223372036854774784.0, 9.5e18, -9.5e18,
+            1e18, 1e19, 9999999999999997952.0, 1e20, 2.0 ** 64, 18446744073709549568.0, 2.0 ** 53, 2.0 ** 53 + 2, 2.0 ** 53 - 1,
+            2.0 ** 31, 2.0 ** 31 - 1, -2.0 ** 31, 2.0 ** 32, 4294967295.0, 65535.0, 65536.0, 255.0, 256.0, 127.0, 128.0,
+            1e-320, 2.5e-323, 1e23, 8.41e21, 5e-5, 0.00001, 123456.7, 1e7, 9999999.0, 1.0000000000000002, 0.9999999999999999]
 DUR_EDGE = [(0, 0), (0, 1), (0, 999999), (0, 1000000), (0, 999999999), (1, 0), (1, 5000000), (157, 0),
             (18446744073709551, 615000000), (18446744073709551, 615999999), (18446744073709551, 616000000),
             (18446744073709552, 0), (18446744073, 709551615), (18446744073, 709551616), (18446744074, 0),
@@ -91,8 +98,18 @@ def rand_val(rng, ty):
     if ty == "f64":
         if r < 0.5:
             return bits(rng.choice(F64_EDGE))
-        if r < 0.8:
+        if r < 0.6:
             return "%016x" % rng.getrandbits(64)
+        if r < 0.75:
+            # a whole number with a random binary magnitude 2^0 .. 2^70 and a random number of significant bits
+            e = rng.randint(0, 70)
+            k = rng.randint(1, 53)
+            m = rng.getrandbits(k) | (1 << (k - 1))
+            x = float(m) * 2.0 ** max(0, e - k + 1) if e >= k - 1 else float(m >> (k - 1 - e))
+            return bits(x if rng.random() < 0.5 else -x)
+        if r < 0.85:
+            # uniform over binary exponents, subnormals included
+            return "%016x" % ((rng.getrandbits(1) << 63) | (rng.randint(0, 2046) << 52) | rng.getrandbits(52))
         return bits(round(rng.uniform(-1000, 1000), rng.randint(0, 6)))
     if ty == "dur":
         if r < 0.6:
